@@ -188,6 +188,10 @@ def lex(text):
 
 def parse_dump(line):
     """Parse one record of the --verif-tokens hook into the same shape as lex()."""
+    if line == "hang":
+        return None, ("hang", "the dump of this single input did not finish (8 s; a dump normally takes milliseconds)"), None
+    if line == "skipped":
+        return None, ("skipped", "not judged: the shard already showed several hangs"), None
     if line.startswith("panic|"):
         return None, ("panic", bytes.fromhex(line[6:]).decode("utf-8", "replace")), None
     parts = line.split("|")
